@@ -1,0 +1,9 @@
+//go:build verif
+
+package docgen
+
+import "reflect"
+
+// VerifExampleValue exposes exampleValue (the example argument/result values the OpenRPC spec is
+// generated from) to the verification harness. Only compiled with build tag `verif`.
+func VerifExampleValue(t reflect.Type) (any, error) { return exampleValue(t, t) }
